@@ -135,6 +135,8 @@ def o_locks(prog, lines):
             elif name in ("wait", "wait_while") and res.startswith("v:"):
                 # condvar wait released and re-acquired the mutex: on return the caller holds it again
                 m = args[1] if len(args) > 1 else None
+                if m in dead:
+                    m = None               # nothing is known about this mutex (poisoned, or locked by a TLS destructor)
                 if m and m in holder and holder[m] != tid and not may_be_waiting(holder[m], m):
                     bad.append((f"Condvar::wait returned to task {tid} while task {holder[m]} holds mutex {m}", "C05:wait-without-mutex"))
                 if m:
